@@ -346,6 +346,11 @@ class PageRenderer:
                         last_val = last_values.get(col_name)
 
                         if val is None:
+                            # Divider value: no heading for this level, but
+                            # entering the divider group still changes the
+                            # level, so the levels below must be re-rendered.
+                            if last_values.pop(col_name, None) is not None:
+                                force_render = True
                             continue
 
                         # Check for change
